@@ -770,7 +770,10 @@ pub fn c20_case(fam: &str, idx: usize, seed: u64) -> Option<Case> {
             let mk = |pl: PDUPayload| crate::p_peer::mk_pdu(&h, Direction::ToReceiver, pl);
             let mut items: Vec<(u64, PDU)> = vec![];
             let mut t = 0u64;
-            items.push((t, mk(PDUPayload::Directive(Operations::Metadata(MetadataPDU { closure_requested: false, checksum_type: k.checksum, file_size: size as u64, source_filename: "src0.bin".into(), destination_filename: "dst0.bin".into(), options: vec![] })))));
+            // a quarter of the foreign senders announce an unbounded file (size 0 in the Metadata PDU): what the
+            // receiver holds is still what it holds
+            let announced = if rng.chance(1, 4) { 0 } else { size as u64 };
+            items.push((t, mk(PDUPayload::Directive(Operations::Metadata(MetadataPDU { closure_requested: false, checksum_type: k.checksum, file_size: announced, source_filename: "src0.bin".into(), destination_filename: "dst0.bin".into(), options: vec![] })))));
             let n = 3 + rng.usize(12);
             let mut shapes = vec![];
             for j in 0..n {
@@ -794,7 +797,7 @@ pub fn c20_case(fam: &str, idx: usize, seed: u64) -> Option<Case> {
             }
             sc.peers.push((0, Box::new(crate::p_peer::ScriptPlayer { items, header: h.clone() })));
             sc.observe_ms = 60_000;
-            let desc = format!("{} size={} [overlap] scripted sender delivers {:?} with a keep-alive prompt after each", k.describe(), size, shapes);
+            let desc = format!("{} size={} announced={} [overlap] scripted sender delivers {:?} with a keep-alive prompt after each", k.describe(), size, announced, shapes);
             let mut cs = Case::from(sc, &k, desc, false);
             cs.info.fixed_id = Some(cfdp_core::transaction::TransactionID(VariableID::from(1u16), VariableID::from(7u16)));
             Some(cs)
